@@ -619,6 +619,12 @@ fn spell_term(rng: &mut Rng, t: &T, out: &mut String, expect: &mut Vec<T>) -> bo
             // text literals: every second time in one of the reference writer's spellings (short escapes, `\uXXXX` in
             // either case, raw characters) instead of the library's own
             let lit = match v {
+                // ... and finite numbers in any spelling of the same double (fraction, exponent with sign, shifted point)
+                Value::Number(n) if n.value.is_finite() && rng.chance(1, 2) => {
+                    let mut sp = crate::spell::Speller::new(rng);
+                    sp.wild = 8;
+                    sp.scalar(v).unwrap_or_else(|| spell_literal(v))
+                }
                 Value::Str(_) | Value::Uri(_) | Value::Ref(_) if rng.chance(1, 2) => {
                     let mut sp = crate::spell::Speller::new(rng);
                     sp.scalar(v).unwrap_or_else(|| spell_literal(v))
